@@ -155,7 +155,7 @@ CHECKS = {
     ),
     "C11": dict(
         modules=["AggkitModel.Properties.C11"],
-        scenarios=[dict(name="l1infostore")],
+        scenarios=[dict(name="l1infostore"), dict(name="evmger")],
         generated=["SyncFacts"],
         leanchecker=True,
         level_text="Proved in Lean 4 (any height, any hash algebra, H.Inj where needed): C11_indices_consecutive — for every mix of events in a block the stored info leaves get consecutive indices in event order and nothing else touches the leaf table; "
@@ -163,7 +163,7 @@ CHECKS = {
                    "C11_v2_check_iff — a root announcement halts the syncer iff (root, leaf count) differs from the synced tree, and changes nothing otherwise; C11_verify_records_manager_root — an effective batch verification records the root of the tree of last exit roots with "
                    "position rollupID-1 updated (what the rollup manager computes), keeps the store closed for the new version; C11_zero_exit_root_skipped. Lookup by index / GER and the leaf hash layout are decided by the correspondence + contract-reference monitors. "
                    "Tie: the real l1infotreesync processor + L1InfoTreeSync facade vs the compiled model on the same blocks (info updates, V2 announcements right and wrong, batch verifications incl. zero/unchanged/recurring exit roots and rollup ids up to 2^32-1, init events), reorgs, restarts, halts; "
-                   "monitors: GER-contract reference (Go port of the deposit tree over keccak(ger,parentHash,ts)), sparse rollup-exit-tree reference, every (historical root, covered index) proof, twin comparison.",
+                   "monitors: GER-contract reference (Go port of the deposit tree over keccak(ger,parentHash,ts)), sparse rollup-exit-tree reference, every (historical root, covered index) proof, twin comparison. Oracle = the REAL contracts (scenario evmger): PolygonZkEVMGlobalExitRootV2 bytecode and the repository's verify-batches mock (rollup exit root computed in Solidity) in go-ethereum's simulated EVM; their logs go through the syncer's own log handlers into the real processor; getRoot() / getLastGlobalExitRoot() / getRollupExitRoot() must equal the node's answers, and the same op lines are answered by the Lean model.",
         level_note="Trusted: Lean kernel; H.Inj; model/code correspondence (generator-bounded); the two L1 contracts are modelled by hand (deposit-tree algorithm; sparse tree of last exit roots) and cross-checked against independent Go ports, not against bytecode. "
                    "Hypotheses: distinct GERs (UNIQUE column); rollup id >= 1; no rollup goes from non-zero back to zero for manager-root equality; no recurrence of a previous rollup-exit-tree state (root is the table's primary key).",
         rule="seeded worlds of 14-25 steps: blocks with 0-5 events, 25% with 3-5 info updates, V2 announcements computed from the reference (35%) or deliberately wrong (12%), exit roots from a pool incl. zero and repeats; reorgs in [first-1, tip+2], restarts; "
